@@ -645,7 +645,14 @@ class Subspace(IdealPoint):
 
         if model == Model.POINCARE:
             klein_basis = self.ideal_basis_coords(model=Model.KLEIN)
-            klein_midpoint = klein_basis.sum(axis=-2) / klein_basis.shape[-2]
+
+            #point of the subspace closest to the origin: the foot of
+            #the perpendicular from the origin to the affine hull of
+            #the ideal basis (the midpoint, for a pair of ideal points)
+            base = klein_basis[..., :1, :]
+            directions = klein_basis[..., 1:, :] - base
+            klein_midpoint = (base - base @ np.linalg.pinv(directions)
+                              @ directions)[..., 0, :]
             poincare_midpoint = kleinian_to_poincare(klein_midpoint)
             poincare_extreme = utils.sphere_inversion(poincare_midpoint)
 
@@ -654,13 +661,19 @@ class Subspace(IdealPoint):
 
         elif model == Model.HALFSPACE:
             halfspace_basis = self.ideal_basis_coords(model=Model.HALFSPACE)
-            halfspace_midpoint = (halfspace_basis.sum(axis=-2) /
-                                  halfspace_basis.shape[-2])
+
+            #the center is the point of the affine hull of the ideal
+            #basis equidistant from all of its elements (the midpoint,
+            #for a pair of ideal points)
+            base = halfspace_basis[..., :1, :]
+            directions = halfspace_basis[..., 1:, :] - base
+            sq_lengths = np.expand_dims(utils.normsq(directions), axis=-2)
+            center = (base + sq_lengths @ np.linalg.pinv(
+                directions.swapaxes(-1, -2)) / 2)[..., 0, :]
 
             #just use the first element of the basis
-            center = halfspace_midpoint
             radius = np.sqrt(
-                utils.normsq(halfspace_basis[..., 0, :] - halfspace_midpoint)
+                utils.normsq(halfspace_basis[..., 0, :] - center)
             )
         else:
             raise GeometryError(
